@@ -168,29 +168,40 @@ Definition trans_preds_ok (vs : list N) (es : list (N * N)) (m : list (N * list 
        forallb (fun s => cl_ok (rev_edges es) (fun _ => false) s) (opred es v)
        && seteq_b (snd p) back && nodup_b (snd p)) m.
 
-(* a list is a DFS pre-order from r: replay the search, the list choosing the next child *)
-Fixpoint pre_replay (es : list (N * N)) (stack : list N) (visited : list N) (l : list N) (fuel : nat) : bool :=
+(* a list is a DFS pre-order from r: recursive descent over the list, which chooses the next child *)
+Fixpoint chk_v (fuel : nat) (es : list (N * N)) (vis : list N) (v : N) (l : list N) : option (list N * list N) :=
   match fuel with
-  | O => false
+  | O => None
   | S f =>
-    match stack with
-    | [] => match l with [] => true | _ => false end
-    | u :: st =>
-      match filter (fun s => negb (memb s visited)) (osucc es u) with
-      | [] => pre_replay es st visited l f                     (* u is finished *)
-      | cands =>
-        match l with
-        | [] => false                                          (* an unvisited successor was skipped *)
-        | w :: l' => if memb w cands then pre_replay es (w :: stack) (w :: visited) l' f else false
-        end
+    match l with
+    | x :: l' => if (x =? v) && negb (memb v vis) then chk_kids f es (v :: vis) v l' else None
+    | [] => None
+    end
+  end
+with chk_kids (fuel : nat) (es : list (N * N)) (vis : list N) (u : N) (l : list N) : option (list N * list N) :=
+  match fuel with
+  | O => None
+  | S f =>
+    match filter (fun s => negb (memb s vis)) (osucc es u) with
+    | [] => Some (vis, l)                                      (* u is finished *)
+    | cands =>
+      match l with
+      | [] => None                                             (* an unvisited successor was skipped *)
+      | w :: _ => if memb w cands
+                  then match chk_v f es vis w l with
+                       | Some (vis', rest) => chk_kids f es vis' u rest
+                       | None => None
+                       end
+                  else None
       end
     end
   end.
-Definition pre_order_ok (vs : list N) (es : list (N * N)) (r : N) (l : list N) : bool :=
-  match l with
-  | [] => false
-  | x :: l' => (x =? r) && pre_replay es [r] [r] l' (S (S (2 * length l)))
+Definition pre_dfs_check (es : list (N * N)) (r : N) (l : list N) : bool :=
+  match chk_v (S (S (2 * length l))) es [] r l with
+  | Some (_, []) => true
+  | _ => false
   end.
+Definition pre_order_ok (vs : list N) (es : list (N * N)) (r : N) (l : list N) : bool := pre_dfs_check es r l.
 (* post-order: a permutation of the reachable set, root last, and an edge a->b whose target finishes
    after its source closes a cycle (b reaches a) *)
 Definition post_order_ok (t : domtab) (es : list (N * N)) (r : N) (l : list N) : bool :=
@@ -202,7 +213,7 @@ Definition post_order_ok (t : domtab) (es : list (N * N)) (r : N) (l : list N) :
 (* a spanning tree of the reachable set made of graph edges, every non-root vertex with one parent *)
 Definition dfs_tree_ok (t : domtab) (es : list (N * N)) (r : N) (tv : list N) (te : list (N * N)) : bool :=
   seteq_b tv (t_all t) && nodup_b tv
-  && forallb (fun e => ememb e es) te
+  && forallb (fun e => ememb e es && memb (fst e) tv && memb (snd e) tv) te
   && forallb (fun v => if v =? r then match opred te v with [] => true | _ => false end
                        else match opred te v with [_] => true | _ => false end) tv
   && cl_ok te (fun _ => false) r && seteq_b (cl te (fun _ => false) r) tv.
